@@ -491,3 +491,61 @@ def nan_gate(ctx, rule, fi, callee, key):
     ctx.check(table == want, rule, key, f"check_nan = `{U(e)}` == (not dropna) and data present, for all four cases",
               f"check_nan = `{U(e)}` has the truth table {table} over (dropna, data present); NaN must be refused exactly when dropna is off "
               "and there are data", fi.where)
+
+
+# (caller, callee, parameter) that is deliberately not handed on although both sides have a parameter of that name
+NOT_FORWARDED_OK = {
+    ("binnings.quantile_binning", "binnings.static_binning", "data"): "explicit bins do not depend on the data",
+    ("FixedWidthBinning._force_bin_existence", "FixedWidthBinning._force_bin_existence_single", "includes_right_edge"):
+        "the lower end of a batch never lies on the right edge",
+    ("compat.geant4._create_h1", "binnings.fixed_width_binning", "data"): "`data` is the CSV table, the bins come from its header values",
+    ("compat.geant4._create_h2", "binnings.fixed_width_binning", "data"): "same",
+}
+
+
+def _callee(m, fi, c):
+    from sa.model import FuncInfo, ClassInfo
+    f = c.func
+    r = None
+    if isinstance(f, ast.Attribute) and isinstance(f.value, ast.Name) and f.value.id in ("self", "cls") and fi.cls is not None:
+        rr = m.resolve_method(fi.cls, f.attr)
+        r = rr[1] if rr else None
+    elif isinstance(f, ast.Attribute) and isinstance(f.value, ast.Call) and U(f.value.func) == "super" and fi.cls is not None:
+        rr = m.resolve_method(fi.cls, f.attr, after=fi.cls)
+        r = rr[1] if rr else None
+    elif isinstance(f, ast.Name) and f.id == "cls" and fi.cls is not None:
+        rr = m.resolve_method(fi.cls, "__init__")
+        r = rr[1] if rr else None
+    else:
+        r = m.resolve_func_expr(fi.module, f)
+        if isinstance(r, ClassInfo):
+            rr = m.resolve_method(r, "__init__")
+            r = rr[1] if rr else None
+        if r is None and isinstance(f, ast.Attribute) and isinstance(f.value, ast.Name) and f.value.id in m.classes:
+            rr = m.resolve_method(m.classes[f.value.id], f.attr)
+            r = rr[1] if rr else None
+    return r if isinstance(r, FuncInfo) else None
+
+
+def same_name_forwarding(ctx, rule, m, funcs, key):
+    """When a function calls another function of the package that has a parameter of the same name as one of its own, it
+    hands its own value (or an explicit value) on: an option the caller set is not silently replaced by the callee's default."""
+    bad = []
+    n = 0
+    for fi in funcs:
+        a = fi.node.args
+        mine = {x.arg for x in a.posonlyargs + a.args + a.kwonlyargs} - {"self", "cls"}
+        for c in calls_in(fi.node):
+            cal = _callee(m, fi, c)
+            if cal is None or cal is fi:
+                continue
+            n += 1
+            ca = cal.node.args
+            theirs = [x.arg for x in ca.posonlyargs + ca.args + ca.kwonlyargs if x.arg not in ("self", "cls")]
+            passed = {k.arg for k in c.keywords if k.arg}
+            pos = [x.arg for x in ca.posonlyargs + ca.args if x.arg not in ("self", "cls")][:len(c.args)]
+            for p in theirs:
+                if p in mine and p not in passed and p not in pos and (fi.qualname, cal.qualname, p) not in NOT_FORWARDED_OK:
+                    bad.append(f"{fi.qualname}: `{U(c)[:60]}` does not pass `{p}` (callee default used instead of the caller's value)")
+    ctx.check(not bad and n >= 1, rule, key, f"{n} resolved package-internal calls: every same-named option is handed on",
+              "; ".join(bad[:3]), funcs[0].where if funcs else "")
